@@ -624,6 +624,15 @@ def powerLegacy (s : PSelf) (rule : PLegacyRule) (outs : List OutKind) (np : NpR
          else .err "UFuncTypeError"
        | _ => .err "ValueError")
 
+/-- The `(1,2)` wrapper of `wrap_ufunc_productspace` (as of /repo 1021b41):
+`def wrapper(self, out1=None, out2=None, out=None, **kwargs)` with
+`if out is not None: out1, out2 = out` — the tuple form (the one the wrapper itself passes to
+its parts, which may be product spaces again) takes precedence over `out1`/`out2`. -/
+def twoOutArgs (out1 out2 : OutKind) (out : Option (OutKind × OutKind)) : List OutKind :=
+  match out with
+  | some (a, b) => [a, b]
+  | Option.none => [out1, out2]
+
 /-- `px.ufuncs.<name>` through the tables. -/
 def powerLegacyCall (names : List String) (rules : List ((Nat × Nat) × PLegacyRule))
     (npTable : List (String × String × Nat × Nat)) (name : String) (s : PSelf)
